@@ -141,6 +141,8 @@ def pairs_for(m, n, rich):
            (S(m, None, None), S(None, None, None)), (S(None, None, None), S(1, 1, None)),
            (["i", [m - 1, 0]], S(None, None, None)), (S(None, None, None), ["i", [0, -1, 0]]), (["i", [0, -1]], ["i", [n - 1, 0, 0]]),
            (["i", [-1]], S(None, None, -1)), (["i", [0, m - 1][:m]], ["i", [n - 1, 0][:n]]), (S(None, None, None), ["i", list(range(n))[::-1]])]
+    # off-diagonal blocks of equal extent whose selectors look alike only after clipping (negative start against a zero start)
+    out += [(S(-2, None, None), S(None, 2, None)), (S(None, 2, None), S(-2, None, None)), (S(-1, None, None), S(0, 1, None))]
     if rich:
         out += [(S(a, b, c), S(b, a, c)) for a in (None, 0, 1, -1) for b in (None, 2, -1) for c in (None, 1, 2, -1, -2)]
     seen, uniq = set(), []
@@ -174,6 +176,12 @@ def cases(tier, seed):
     # seeded random trees of depth <= 3 (8 fixed samples, selected by VERIF_SEED mod 8)
     from .common import random_trees
     trees += [t for t in random_trees(4000 + seed % 8, 12 if not rich else 400) if tree_name(t) not in {tree_name(x) for x in trees}]
+    # blocks of annotated composites whose two starts both lie beyond the block's own extent
+    S_ = lambda a, b, c: ["s", a, b, c]  # noqa
+    for t, prs in ((["kron", ["selfadj", 2, F8], ["psd", 3, F8]], [(S_(2, 4, None), S_(4, 6, None)), (S_(4, 6, None), S_(2, 4, None)), (S_(-2, None, None), S_(None, 2, None))]),
+                   (["psd", 4, F8], [(S_(2, 3, None), S_(3, 4, None)), (S_(-2, None, None), S_(None, 2, None)), (S_(1, 3, None), S_(-2, None, None))]),
+                   (["blockdiag", [["selfadj", 2, C16], ["psd", 2, C16]], [1, 1]], [(S_(-2, None, None), S_(None, 2, None)), (S_(2, 4, None), S_(0, 2, None))])):
+        out.append((f"blk:{tree_name(t)}", case_slices, dict(tree=t, pairs=prs, xdt=C16)))
     for t in trees:
         m, n = tree_shape(t)
         out.append((f"int:{tree_name(t)}", case_ints, dict(tree=t)))
